@@ -25,7 +25,7 @@ fi
 if [ "${RUN_TESTS:-0}" = 1 ]; then (cd "$tmp" && go test -vet=off -count=1 ./... 2>&1 | grep -v "no test files" | grep -v "^ok" | head -20); fi
 rc=0
 for p in ${props//,/ }; do
-  /verif/bin/connectlint -repo "$tmp" -property "$p" -no-evidence | grep -E "^(VIOLATION|KNOWN|connectlint)" | sed "s#$tmp/##g; s#replay=[^ ]* ##"
+  "${CONNECTLINT:-/verif/bin/connectlint}" -verif /verif -repo "$tmp" -property "$p" ${RULE:+-rule $RULE} -no-evidence | grep -E "^(VIOLATION|KNOWN|connectlint)" | sed "s#$tmp/##g; s#replay=[^ ]* ##"
   [ "${PIPESTATUS[0]}" -ne 0 ] && rc=1
 done
 exit $rc
